@@ -274,6 +274,9 @@ pub struct Res {
     /// for Drain: number of read calls made and how each ended
     #[serde(default, skip_serializing_if = "Vec::is_empty")]
     pub calls: Vec<u32>,
+    /// for Drain: simulator step at which each read call returned
+    #[serde(default, skip_serializing_if = "Vec::is_empty")]
+    pub call_steps: Vec<u64>,
 }
 
 #[derive(Serialize, Deserialize, Clone, Debug, Default, PartialEq)]
